@@ -598,7 +598,8 @@ def write_roundtrip(ctx: Ctx) -> None:
     from mypy.ipc import IPCBase, MAX_READ
     rng = ctx.rng
     sizes = sorted({n for k in (1, 2) for dlt in range(-6, 7) for n in (k * MAX_READ + dlt,)} | set(range(0, 6)) | {65535, 65536, MAX_READ // 2})
-    groups = [[n] for n in sizes] + [[rng.choice(sizes), rng.randrange(1, 50), rng.choice(sizes)] for _ in range(ctx.pick(4, 20))]
+    nz = [n for n in sizes if n > 0]      # zero-length frames are outside the property (read_bytes returns b"" for them and for EOF)
+    groups = [[n] for n in sizes] + [[rng.choice(nz), rng.randrange(1, 50), rng.choice(nz)] for _ in range(ctx.pick(4, 20))]
     for g in groups:
         payloads = [bytes(rng.randrange(1, 256) for _ in range(min(n, 64))) * (n // 64 + 1) for n in g]
         payloads = [p[:n] for p, n in zip(payloads, g)]
